@@ -238,7 +238,12 @@ class ObjectStream(Generic[T]):
         base_ast = self.query_ast
         if len(q_metadata) > 0:
             new_self = self.clone_with_new_ast(copy.copy(base_ast), self.item_type)
-            new_self.query_ast._q_metadata = q_metadata  # type: ignore
+            # The copied node may already carry metadata from a QMetaData call just before
+            # this one: add to it rather than replace it.
+            new_self.query_ast._q_metadata = {  # type: ignore
+                **getattr(base_ast, "_q_metadata", {}),
+                **q_metadata,
+            }
             return new_self
         else:
             return self.clone_with_new_ast(base_ast, self.item_type)
